@@ -1,7 +1,404 @@
 import Model.Basic
-/-! placeholder, replaced below -/
+/-!
+# The DAG task runner (dag/dag.go)
+
+* graph construction (`AddTask`, `TaskDependsOn`, `TaskRetries`) as a fold over the call history;
+* `DepthFirstSort` / `visit` (fuel-structural, children loop as a fold);
+* `Graph.Run` as a labelled transition system: `step? cfg s ev` is deterministic given the event, so it
+  is both the semantics the theorems are about and the acceptor that replays traces of the real
+  scheduler (events come from the `verif` hooks and the harness' task functions).
+
+Task ids are numbers (`0` stands for the empty ID); Go pointers to vertices are the ids themselves
+(after the `AddTask` repair a vertex is never replaced, so "the vertex registered under an ID" and
+"the vertex other vertices point to" are the same thing — `build_children_registered` proves it).
+-/
 namespace GoModel.Dag
+
+/-! ## Construction -/
+
+/-- a `*Task` argument: `none` = nil pointer; id 0 = empty ID; `hasFn = false` = nil function -/
+structure TaskRef where
+  id : Nat
+  hasFn : Bool := true
+deriving DecidableEq, Repr, Inhabited
+
+inductive GOp
+  | addTask (t : Option TaskRef)
+  | dependsOn (t : Option TaskRef) (deps : List (Option TaskRef))
+  | retries (t : Option TaskRef) (n : Int)
+deriving DecidableEq, Repr, Inhabited
+
+inductive BuildErr
+  | taskNil | taskID | taskFn (id : Nat) | depDuplicate (a c : Nat)
+deriving DecidableEq, Repr, Inhabited
+
+structure Vertex where
+  id : Nat
+  children : List Nat := []
+  parents : List Nat := []
+  retries : Int := 0
+deriving DecidableEq, Repr, Inhabited
+
+structure GState where
+  verts : List Vertex := []          -- `g.Vertices`, in insertion order (map order is arbitrary)
+  errs : List BuildErr := []
+deriving DecidableEq, Repr, Inhabited
+
+def GState.find (g : GState) (id : Nat) : Option Vertex := g.verts.find? (·.id == id)
+def GState.has (g : GState) (id : Nat) : Bool := g.verts.any (·.id == id)
+def GState.modify (g : GState) (id : Nat) (f : Vertex → Vertex) : GState :=
+  { g with verts := g.verts.map fun v => if v.id == id then f v else v }
+
+/-- `addTask`: validation, then keep the existing vertex (only its Task changes) or create one -/
+def addTask (g : GState) (t : Option TaskRef) : Except BuildErr GState :=
+  match t with
+  | none => .error .taskNil
+  | some t =>
+    if t.id == 0 then .error .taskID
+    else if !t.hasFn then .error (.taskFn t.id)
+    else if g.has t.id then .ok g
+    else .ok { g with verts := g.verts ++ [{ id := t.id }] }
+
+/-- `retrieveOrAddVertex` -/
+def retrieveOrAdd (g : GState) (t : Option TaskRef) : Except BuildErr (GState × Nat) :=
+  match t with
+  | none => .error .taskNil
+  | some t =>
+    if g.has t.id then .ok (g, t.id)
+    else match addTask g (some t) with
+      | .ok g' => .ok (g', t.id)
+      | .error e => .error e
+
+/-- the loop over the dependencies of one `TaskDependsOn` call; an error stops the call -/
+def addDeps (g : GState) (v : Nat) : List (Option TaskRef) → GState
+  | [] => g
+  | d :: ds =>
+    match retrieveOrAdd g d with
+    | .error e => { g with errs := g.errs ++ [e] }
+    | .ok (g1, c) =>
+      if ((g1.find v).map (·.children)).getD [] |>.contains c then
+        { g1 with errs := g1.errs ++ [.depDuplicate v c] }
+      else
+        let g2 := g1.modify v fun x => { x with children := x.children ++ [c] }
+        let g3 := g2.modify c fun x => { x with parents := x.parents ++ [v] }
+        addDeps g3 v ds
+
+def buildStep (g : GState) (op : GOp) : GState :=
+  match op with
+  | .addTask t =>
+    match addTask g t with
+    | .ok g' => g'
+    | .error e => { g with errs := g.errs ++ [e] }
+  | .dependsOn t deps =>
+    match retrieveOrAdd g t with
+    | .error e => { g with errs := g.errs ++ [e] }
+    | .ok (g1, v) => addDeps g1 v deps
+  | .retries t n =>
+    match retrieveOrAdd g t with
+    | .error e => { g with errs := g.errs ++ [e] }
+    | .ok (g1, v) => g1.modify v fun x => { x with retries := n }
+
+def buildGraph (ops : List GOp) : GState := ops.foldl buildStep {}
+
+def GState.children (g : GState) (v : Nat) : List Nat := ((g.find v).map (·.children)).getD []
+def GState.parents (g : GState) (v : Nat) : List Nat := ((g.find v).map (·.parents)).getD []
+def GState.retriesOf (g : GState) (v : Nat) : Int := ((g.find v).map (·.retries)).getD 0
+def GState.ids (g : GState) : List Nat := g.verts.map (·.id)
+
+/-! ## DepthFirstSort -/
+
+inductive Mark | unvisited | visited | traversed
+deriving DecidableEq, Repr, Inhabited
+
+structure DfsState where
+  marks : List (Nat × Mark) := []
+  sorted : List Nat := []
+deriving DecidableEq, Repr, Inhabited
+
+def DfsState.mark (s : DfsState) (v : Nat) : Mark :=
+  match s.marks.find? (·.1 == v) with
+  | some (_, m) => m
+  | none => .unvisited
+def DfsState.set (s : DfsState) (v : Nat) (m : Mark) : DfsState :=
+  { s with marks := (v, m) :: s.marks.filter (·.1 != v) }
+
+inductive DfsErr | cycle (v : Nat) | fuel
+deriving DecidableEq, Repr, Inhabited
+
+/-- `visit` -/
+def visit (g : GState) : Nat → DfsState → Nat → Except DfsErr DfsState
+  | 0, _, _ => .error .fuel
+  | fuel + 1, s, v =>
+    match s.mark v with
+    | .traversed => .ok s
+    | .visited => .error (.cycle v)
+    | .unvisited => do
+      let s1 ← (g.children v).foldlM (fun st c => visit g fuel st c) (s.set v .visited)
+      pure { (s1.set v .traversed) with sorted := s1.sorted ++ [v] }
+
+/-- `DepthFirstSort` with the outer loop running over `order` (any permutation of the ids) -/
+def dfsFrom (g : GState) (order : List Nat) : Except DfsErr (List Nat) :=
+  (order.foldlM (fun st v =>
+      if st.mark v != .unvisited then pure st else visit g (g.verts.length + 1) st v) ({} : DfsState)).map (·.sorted)
+
+def dfs (g : GState) : Except DfsErr (List Nat) := dfsFrom g g.ids
+
+/-! ## The scheduler as a labelled transition system -/
+
+inductive St | pending | inProgress | skip | done
+deriving DecidableEq, Repr, Inhabited
+
+/-- result of a task attempt / completion message -/
+inductive Res | ok | err | skipParents | taskSkipped
+deriving DecidableEq, Repr, Inhabited
+
+/-- what a vertex' goroutine is doing -/
+inductive Flight
+  | none
+  | pseudo (r : Res)          -- goroutine that only reports `nil` (skip) or `ErrorTaskSkipped`
+  | waitSem | waitLock
+  | idle (k : Nat)            -- between attempts: next attempt is number k
+  | running (k : Nat)
+  | sending (r : Res)
+deriving DecidableEq, Repr, Inhabited
+
+/-- an entry of the `*Errors` value returned by `Run` -/
+inductive Entry | task (v : Nat) | skipped (v : Nat) | cancelled
+deriving DecidableEq, Repr, Inhabited
+
+structure VState where
+  st : St := .pending
+  fl : Flight := .none
+  sem : Bool := false          -- holds a semaphore slot
+  marked : Bool := false       -- ghost: was ever set to `skip`
+  real : Bool := false         -- ghost: launched as a real task
+  out : Option Res := none     -- ghost: last completion received
+deriving DecidableEq, Repr, Inhabited
+
+structure Cfg where
+  g : GState
+  serial : Bool := false
+  maxParallel : Nat := 1000000
+
+structure Sched where
+  vs : List (Nat × VState)
+  errs : List Entry := []
+  cancelled : Bool := false
+  exited : Bool := false
+deriving DecidableEq, Repr, Inhabited
+
+def Sched.get (s : Sched) (v : Nat) : VState := ((s.vs.find? (·.1 == v)).map (·.2)).getD {}
+def Sched.set (s : Sched) (v : Nat) (x : VState) : Sched :=
+  { s with vs := s.vs.map fun p => if p.1 == v then (v, x) else p }
+def Sched.has (s : Sched) (v : Nat) : Bool := s.vs.any (·.1 == v)
+
+def initSched (g : GState) : Sched := { vs := g.ids.map fun v => (v, {}) }
+
+inductive Event
+  | recv (v : Nat) (r : Res)
+  | pickReal (v : Nat) | pickSkip (v : Nat) | pickErr (v : Nat)
+  | cancel | idle | exit
+  | semAcq (v : Nat) | lockAcq (v : Nat)
+  | enter (v : Nat) (k : Nat) | leave (v : Nat) (k : Nat) (r : Res)
+  | semRel (v : Nat)
+deriving DecidableEq, Repr, Inhabited
+
+/-- `getNextVertex`'s readiness test -/
+def ready (c : Cfg) (s : Sched) (v : Nat) : Bool :=
+  ((s.get v).st == .pending || (s.get v).st == .skip) &&
+  (c.g.children v).all fun ch => (s.get ch).st != .pending && (s.get ch).st != .inProgress
+
+def anyInProgress (s : Sched) : Bool := s.vs.any fun p => p.2.st == .inProgress
+def allDone (s : Sched) : Bool := s.vs.all fun p => p.2.st == .done
+/-- may the scheduler pick now (serial mode: nothing may be in progress) -/
+def mayPick (c : Cfg) (s : Sched) : Bool := !(c.serial && anyInProgress s)
+def holders (s : Sched) : Nat := (s.vs.filter fun p => p.2.sem).length
+
+/-- all transitive parents of `v` (fuel = number of vertices) -/
+def ancestors (g : GState) : Nat → Nat → List Nat
+  | 0, _ => []
+  | fuel + 1, v => (g.parents v).flatMap fun p => p :: ancestors g fuel p
+
+/-- `skipParents`: every transitive parent is set to `skip` -/
+def markAncestors (c : Cfg) (s : Sched) (v : Nat) : Sched :=
+  (ancestors c.g (c.g.verts.length + 1) v).foldl
+    (fun s a => s.set a { s.get a with st := .skip, marked := true }) s
+
+/-- One event of `Run`.  `none` = the model cannot perform this event in this state. -/
+def step? (c : Cfg) (s : Sched) (ev : Event) : Option Sched :=
+  -- after the loop has ended only late semaphore releases of finished task goroutines can still be logged
+  if s.exited && (match ev with | .semRel _ => false | _ => true) then none else
+  match ev with
+  | .pickReal v =>
+    if s.has v && mayPick c s && ready c s v && (s.get v).st == .pending && s.errs.isEmpty then
+      some (s.set v { s.get v with st := .inProgress, fl := .waitSem, real := true })
+    else none
+  | .pickSkip v =>
+    if s.has v && mayPick c s && ready c s v && (s.get v).st == .skip then
+      some (s.set v { s.get v with st := .inProgress, fl := .pseudo .ok })
+    else none
+  | .pickErr v =>
+    if s.has v && mayPick c s && ready c s v && (s.get v).st == .pending && !s.errs.isEmpty then
+      some (s.set v { s.get v with st := .inProgress, fl := .pseudo .taskSkipped })
+    else none
+  | .recv v r =>
+    let x := s.get v
+    if s.has v && (x.fl == .pseudo r || x.fl == .sending r) then
+      let s1 := s.set v { x with st := .done, fl := .none, out := some r }
+      match r with
+      | .ok => some s1
+      | .skipParents => some (markAncestors c s1 v)
+      | .err => some { s1 with errs := s1.errs ++ [.task v] }
+      | .taskSkipped => some { s1 with errs := s1.errs ++ [.skipped v] }
+    else none
+  | .cancel =>
+    if s.cancelled then none else some { s with cancelled := true, errs := s.errs ++ [.cancelled] }
+  | .idle =>
+    -- `getNextVertex` found nothing to launch
+    if allDone s then none
+    else if mayPick c s && s.vs.any (fun p => ready c s p.1) then none
+    else some s
+  | .exit => if allDone s then some { s with exited := true } else none
+  | .semAcq v =>
+    let x := s.get v
+    if x.fl == .waitSem && holders s < c.maxParallel then some (s.set v { x with fl := .waitLock, sem := true })
+    else none
+  | .lockAcq v =>
+    let x := s.get v
+    if x.fl == .waitLock then some (s.set v { x with fl := .idle 0 }) else none
+  | .enter v k =>
+    let x := s.get v
+    if x.fl == .idle k && (k : Int) ≤ c.g.retriesOf v then some (s.set v { x with fl := .running k }) else none
+  | .leave v k r =>
+    let x := s.get v
+    if x.fl == .running k && r != .taskSkipped then
+      if r == .ok || (k : Int) ≥ c.g.retriesOf v then some (s.set v { x with fl := .sending r })
+      else some (s.set v { x with fl := .idle (k + 1) })
+    else none
+  | .semRel v =>
+    let x := s.get v
+    -- the slot is released after the completion was handed over (the log may show either order)
+    if x.sem && (x.fl == .none || (match x.fl with | .sending _ => true | _ => false)) then
+      some (s.set v { x with sem := false })
+    else none
+
+/-- replay a trace: the state reached, or the index of the first refused event -/
+def accept (c : Cfg) : Sched → List Event → Nat → Except Nat Sched
+  | s, [], _ => .ok s
+  | s, ev :: evs, i =>
+    match step? c s ev with
+    | some s' => accept c s' evs (i + 1)
+    | none => .error i
+
+/-- what `Run` returns before any scheduling -/
+inductive Pre | buildErrors | empty | cycle | schedule
+deriving DecidableEq, Repr, Inhabited
+
+def runPre (g : GState) : Pre :=
+  if !g.errs.isEmpty then .buildErrors
+  else if g.verts.isEmpty then .empty
+  else match dfs g with
+    | .error _ => .cycle
+    | .ok _ => .schedule
+
+/-! ## driver glue -/
+
 structure DriverState where
-  dummy : Nat := 0
-def handle (d : DriverState) (_ws : List String) : DriverState × Option String := (d, some "bad-op")
+  ops : List GOp := []
+  serial : Bool := false
+  maxParallel : Nat := 1000000
+  events : List Event := []
+deriving Inhabited
+
+def parseRef (s : String) : Option (Option TaskRef) :=
+  if s == "nil" then some none
+  else match s.splitOn ":" with
+    | [i, f] => i.toNat?.map fun n => some { id := n, hasFn := f == "1" }
+    | _ => none
+
+def parseRes : String → Option Res
+  | "ok" => some .ok | "err" => some .err | "skip" => some .skipParents | "tskip" => some .taskSkipped | _ => none
+
+def parseEvent (ws : List String) : Option Event :=
+  match ws with
+  | ["recv", v, r] => do pure (.recv (← v.toNat?) (← parseRes r))
+  | ["pickReal", v] => v.toNat?.map .pickReal
+  | ["pickSkip", v] => v.toNat?.map .pickSkip
+  | ["pickErr", v] => v.toNat?.map .pickErr
+  | ["cancel"] => some .cancel
+  | ["idle"] => some .idle
+  | ["exit"] => some .exit
+  | ["semAcq", v] => v.toNat?.map .semAcq
+  | ["lockAcq", v] => v.toNat?.map .lockAcq
+  | ["enter", v, k] => do pure (.enter (← v.toNat?) (← k.toNat?))
+  | ["leave", v, k, r] => do pure (.leave (← v.toNat?) (← k.toNat?) (← parseRes r))
+  | ["semRel", v] => v.toNat?.map .semRel
+  | _ => none
+
+def entryStr : Entry → String
+  | .task v => "task:" ++ toString v
+  | .skipped v => "skipped:" ++ toString v
+  | .cancelled => "cancelled"
+
+def buildErrStr : BuildErr → String
+  | .taskNil => "nil" | .taskID => "id" | .taskFn i => "fn:" ++ toString i
+  | .depDuplicate a c => "dup:" ++ toString a ++ ":" ++ toString c
+
+def vertexStr (v : Vertex) : String :=
+  toString v.id ++ "[" ++ ",".intercalate (v.children.map toString) ++ "|" ++
+    ",".intercalate (v.parents.map toString) ++ "|" ++ toString v.retries ++ "]"
+
+def insertNat (x : Nat) : List Nat → List Nat
+  | [] => [x]
+  | y :: ys => if x ≤ y then x :: y :: ys else y :: insertNat x ys
+def sortNat : List Nat → List Nat
+  | [] => []
+  | x :: xs => insertNat x (sortNat xs)
+
+/-- is `order` a valid answer of DepthFirstSort for `g`: every vertex once, children first -/
+def validTopo (g : GState) (order : List Nat) : Bool :=
+  sortNat order == sortNat g.ids &&
+  (List.range order.length).all fun i =>
+    (g.children (order.getD i 0)).all fun ch => (order.take i).contains ch
+
+def handle (d : DriverState) (ws : List String) : DriverState × Option String :=
+  match ws with
+  | ["new"] => ({}, none)
+  | ["add", t] => match parseRef t with
+    | some t => ({ d with ops := d.ops ++ [.addTask t] }, none)
+    | none => (d, some "bad-op")
+  | "dep" :: t :: deps => match parseRef t, deps.mapM parseRef with
+    | some t, some ds => ({ d with ops := d.ops ++ [.dependsOn t ds] }, none)
+    | _, _ => (d, some "bad-op")
+  | ["retries", t, n] => match parseRef t, n.toInt? with
+    | some t, some n => ({ d with ops := d.ops ++ [.retries t n] }, none)
+    | _, _ => (d, some "bad-op")
+  | ["serial"] => ({ d with serial := true }, none)
+  | ["max", n] => match n.toNat? with
+    | some n => ({ d with maxParallel := if n > 0 then n else d.maxParallel }, none)
+    | none => (d, some "bad-op")
+  | "ev" :: rest => match parseEvent rest with
+    | some e => ({ d with events := d.events ++ [e] }, none)
+    | none => (d, some "bad-op")
+  | ["graph"] =>
+    let g := buildGraph d.ops
+    let pre := match runPre g with
+      | .buildErrors => "builderrors" | .empty => "empty" | .cycle => "cycle" | .schedule => "schedule"
+    (d, some ("G pre=" ++ pre ++ " errs=" ++ ";".intercalate (g.errs.map buildErrStr) ++ " verts=" ++
+      ";".intercalate (g.verts.map vertexStr)))
+  | "topo" :: order =>
+    let g := buildGraph d.ops
+    match order.mapM String.toNat? with
+    | some o => (d, some ("T valid=" ++ (if validTopo g o then "1" else "0")))
+    | none => (d, some "bad-op")
+  | ["run"] =>
+    let g := buildGraph d.ops
+    let c : Cfg := { g := g, serial := d.serial, maxParallel := d.maxParallel }
+    match accept c (initSched g) d.events 0 with
+    | .error i => (d, some ("R refused=" ++ toString i))
+    | .ok s =>
+      (d, some ("R accepted exited=" ++ (if s.exited then "1" else "0") ++ " errs=" ++
+        ";".intercalate (s.errs.map entryStr) ++ " done=" ++ (if allDone s then "1" else "0")))
+  | _ => (d, some "bad-op")
+
 end GoModel.Dag
